@@ -212,7 +212,10 @@ PLANS["C11"] = dict(
     assumptions=COMMON_ASSUMPTIONS + [
         "single thread (A-SEQ): locks and the receive condition are modelled sequentially",
         "service hooks (on_disconnect) and stream.close() return normally (A-HOOKS)",
-        "scope: no before_closed hook configured (it fetches the remote root, i.e. serves traffic re-entrantly inside close())",
+        "a configured before_closed hook is covered by close[with_hook] for a transport that is open at entry: the hook and the read of "
+        "self.root are library models (ghost event; touch what an exchange on the connection touches and keep the table invariants; return "
+        "or raise anything; may leave the transport dead - the read of the root ASSUMED so); close with a hook on an already dead transport "
+        "is not covered; the other behaviours of close are for connections without a hook",
         "Channel.poll is an ASSUMED interface contract (select/poll objects are not modelled): EOFError on a closed "
         "stream, select errors, no bytes consumed",
         "the handler table call is abstracted by the model handler_run; the close handler's effect is taken from "
@@ -265,13 +268,15 @@ PLANS["C03"] = dict(
 
 PLANS["C10"]["targets"] = PLANS["C10"]["targets"] + [
     PROTO + "_box", PROTO + "_unbox", PROTO + "_handle_del", NETREF + "asyncreq", BN + "__del__", PROTO + "_cleanup",
-    SCEN + "same_object_same_proxy"]
+    PROTO + "_dispatch", SCEN + "same_object_same_proxy"]
 PLANS["C10"]["lemmas"] = BOX_LEMMAS
 PLANS["C10"]["assumptions"] = COMMON_ASSUMPTIONS + [
     "under contract: the reference-counting table (add / decref / clear / lookup, whole-view postconditions with frame); "
     "_box adds exactly one box per occurrence of a lent id (tuples counted item-wise); _unbox bumps the live proxy's count by "
     "one or creates a proxy with count 1; the proxy finalizer sends ONE release notice carrying the proxy's WHOLE count; "
-    "_handle_del removes exactly that many boxes of exactly that id; _cleanup empties the table",
+    "_handle_del removes exactly that many boxes of exactly that id; _cleanup empties the table; _dispatch unboxes the payload of "
+    "EVERY arriving reply (so every reference in flight becomes a proxy whose finalizer returns its count, also when nobody waits "
+    "for the reply any more)",
     "the inductive invariant B = F + P + D over ALL histories of box / unbox / drop-proxy / deliver-release transitions in any "
     "order (a release notice crossing a fresh reference is covered without enumerating interleavings); each transition's "
     "effect is the spec function the contracts above are stated with",
